@@ -1,13 +1,20 @@
 #!/bin/sh
-# offline setup: nothing to build or download; verify the interpreter, the editable install and the kit
+# offline setup: nothing to build or download; verify the interpreter, the editable install and the kit,
+# then run the short form of the machinery self-tests (DESIGN.md section 15)
 set -e
 cd "$(dirname "$0")"
 /venv/bin/python -B -c "
 import sys, os
 sys.path.insert(0, '.')
-import mapproxy, PIL, shapely
+import mapproxy, PIL, shapely, numpy
 assert os.path.realpath(os.path.dirname(mapproxy.__file__)) == os.path.realpath(os.environ.get('VERIF_REPO', '/repo') + '/mapproxy'), mapproxy.__file__
 import simkit.tape, simkit.sched, simkit.fs, simkit.world, simkit.driver
 print('setup ok: python %s, mapproxy from %s' % (sys.version.split()[0], os.path.dirname(mapproxy.__file__)))
 "
 mkdir -p evidence replays
+/venv/bin/python -B selftest/simfs_fidelity.py 300 0 2>&1 | tail -1
+for id in C07 C15; do
+  a=$(./check $id --cases 60 --budget 120 --workers 8 --no-evidence 2>/dev/null | grep -o 'dset=[0-9a-f]*')
+  b=$(PYTHONHASHSEED=7 ./check $id --cases 60 --budget 120 --workers 3 --no-evidence 2>/dev/null | grep -o 'dset=[0-9a-f]*')
+  [ -n "$a" ] && [ "$a" = "$b" ] && echo "determinism $id ok ($a)" || { echo "determinism $id MISMATCH $a $b"; exit 1; }
+done
